@@ -91,6 +91,13 @@ class Histories(Suite):
                 # the dataset's own list of rankings)
                 univ = sorted({e for r in D for b in r for e in b}, key=str)
                 D = [gen.random_ranking(rng, univ, 1.0, rng.choice([1.0, 0.6])) for _ in range(rng.randint(2, 4))]
+                if rng.random() < 0.3:
+                    # a ranking with empty buckets (accepted and kept as it is by Ranking and Dataset): code that "tidies" the rankings
+                    # it is given, in place, shows here
+                    r = rng.choice(D)
+                    for _ in range(rng.randint(1, 2)):
+                        r.insert(rng.randint(0, len(r)), [])
+                    ops[rng.randrange(len(ops))] = rng.choice(["bioconsert", "pickaperm", "borda_bid"])
             if rng.random() < 0.3:
                 # incomplete, and the elements missing from the first ranking first appear later in DESCENDING order: the ids (order of
                 # first appearance) then differ from the order in which a set of small integers is iterated - a copy of the
